@@ -2,6 +2,8 @@ import F3.Proofs.InstanceDecision
 import F3.Proofs.ParticipantInv
 import F3.Props.C08
 import F3.Proofs.DecisionCert
+import F3.Proofs.OwnBase
+import F3.Proofs.BridgeEx
 /-!
 # C03 — every reported decision is a self-contained, verifiable finality proof (model part)
 
@@ -298,5 +300,191 @@ example : (validateCerts 1 [⟨1, 30, 7⟩, ⟨2, 1, 8⟩, ⟨3, 40, 9⟩] 5 non
     some .noQuorum := by decide
 
 end Certificate
+
+/-! ## AUDIT2 M1 / M2: the certificate theorems without `hbase`, and with `d.value ≠ []` derived
+
+`instance_decision_certificate_accepted` above assumes (i) `hbase`: the *decided* chain starts at the base the
+validator expects, and (ii) `hne`: the decided chain is not bottom. (i) follows from a statement about the
+participant's own *input* chain, because a decision is always on the participant's own base
+(`F3.Audit2.decision_on_own_base`, no hypothesis on deliveries): `…_nobase`. (ii) is **not** a consequence of
+`OpsValid` (example `opsvalid_decides_bottom` below: two DECIDE votes for bottom satisfy `OpsValid` and the model
+terminates on bottom); it is a consequence of message validation (`MsgValid`: the validator rejects DECIDE for
+bottom), so over validated deliveries it is derived: `…_validated`. -/
+section Audit2
+open F3.Certs F3.DecisionCert F3.Audit2
+
+/-- the validator's expected base, transported from the input chain to a chain with the same head -/
+theorem base_of_input {input v : Chain} (tipOf : Nat → Tip) (base : Option Tip) (hne : v ≠ [])
+    (hhead : v = [] ∨ v.head? = input.head?)
+    (hbase : ∀ b, base = some b → ∃ h, (input.map tipOf).head? = some h ∧ Tip.eq b h = true) :
+    ∀ b, base = some b → ∃ h, (v.map tipOf).head? = some h ∧ Tip.eq b h = true := by
+  intro b hb
+  obtain ⟨h, hh, he⟩ := hbase b hb
+  refine ⟨h, ?_, he⟩
+  rcases hhead with h0 | h1
+  · exact absurd h0 hne
+  · rw [List.head?_map, h1, ← List.head?_map]; exact hh
+
+/-- **M1 for certificates.** As `instance_decision_certificate_accepted`, but the hypothesis about the base is about
+the participant's own **input** chain (the chain it entered the instance with starts at the base the validator
+expects), not about the decision. -/
+theorem instance_decision_certificate_accepted_nobase (cfg : Cfg) (tbl : F3.Instance.Table) (input : Chain)
+    (ops : List Op) (hops : OpsValid tbl ops) (d : Just)
+    (hd : (run (init cfg tbl input) ops).1.termination = some d)
+    (net inst comm : Nat) (tipOf : Nat → Tip) (t nt : F3.Certs.Table) (base : Option Tip)
+    (hag : TablesAgree tbl t) (ht : WF t) (hnt : WF nt)
+    (hne : d.value ≠ []) (hcv : chainValid (d.value.map tipOf) = true)
+    (hbaseIn : ∀ b, base = some b → ∃ h, (input.map tipOf).head? = some h ∧ Tip.eq b h = true) :
+    validateCerts net t inst base [decisionCert net inst comm tipOf t nt d] =
+        ⟨u64 (inst + 1), (d.value.map tipOf).tail, canon nt, none⟩ ∧
+      Backed (fun x => DecideVoted ops x d.value) t (decisionCert net inst comm tipOf t nt d).sig :=
+  instance_decision_certificate_accepted cfg tbl input ops hops d hd net inst comm tipOf t nt base hag ht hnt hne hcv
+    (base_of_input tipOf base hne (decision_on_own_base cfg tbl input ops d hd) hbaseIn)
+
+/-- the same at the level of `DecisionOK`, for any run: only the base clause is discharged -/
+theorem run_decision_certificate_accepted_nobase (V : Pid → Chain → Prop) (cfg : Cfg) (tbl : F3.Instance.Table)
+    (input : Chain) (ops : List Op) (d : Just)
+    (hd : (run (init cfg tbl input) ops).1.termination = some d) (hok : DecisionOK V tbl d)
+    (net inst comm : Nat) (tipOf : Nat → Tip) (t nt : F3.Certs.Table) (base : Option Tip)
+    (hag : TablesAgree tbl t) (ht : WF t) (hnt : WF nt)
+    (hne : d.value ≠ []) (hcv : chainValid (d.value.map tipOf) = true)
+    (hbaseIn : ∀ b, base = some b → ∃ h, (input.map tipOf).head? = some h ∧ Tip.eq b h = true) :
+    validateCerts net t inst base [decisionCert net inst comm tipOf t nt d] =
+        ⟨u64 (inst + 1), (d.value.map tipOf).tail, canon nt, none⟩ ∧
+      Backed (fun x => V x d.value) t (decisionCert net inst comm tipOf t nt d).sig :=
+  consensus_decision_certificate_accepted V tbl d hok net inst comm tipOf t nt base hag ht hnt hne hcv
+    (base_of_input tipOf base hne (decision_on_own_base cfg tbl input ops d hd) hbaseIn)
+
+/-- **M2 for certificates.** `W` = the validly signed votes in existence. Every delivery is of a *validated* message
+(`MsgValid W tbl`, what C05's `validMsg` gives: `F3.ValidBridge.validMsg_MsgValid`) or is of another instance / carries
+other supplemental data (and is refused at the door). IF the instance terminates, the decision is **not bottom**
+(derived), starts at the own base (derived), and the certificate assembled from it is accepted provided the
+participant's input starts at the base the validator expects and the decided chain is a well-formed `ECChain` under
+the tipset interning; every signature of the aggregate is the DECIDE vote *in `W`*, for exactly the decided value, of
+the member at that index. -/
+theorem instance_decision_certificate_accepted_validated (W : Votes) (cfg : Cfg) (tbl : F3.Instance.Table)
+    (input : Chain) (ops : List Op) (hops : ∀ op ∈ ops, OpValidF W tbl op) (d : Just)
+    (hd : (run (init cfg tbl input) ops).1.termination = some d)
+    (net inst comm : Nat) (tipOf : Nat → Tip) (t nt : F3.Certs.Table) (base : Option Tip)
+    (hag : TablesAgree tbl t) (ht : WF t) (hnt : WF nt)
+    (hcv : chainValid (d.value.map tipOf) = true)
+    (hbaseIn : ∀ b, base = some b → ∃ h, (input.map tipOf).head? = some h ∧ Tip.eq b h = true) :
+    d.value ≠ [] ∧ d.value.head? = input.head? ∧
+    validateCerts net t inst base [decisionCert net inst comm tipOf t nt d] =
+        ⟨u64 (inst + 1), (d.value.map tipOf).tail, canon nt, none⟩ ∧
+      Backed (fun x => W x 0 .decide d.value) t (decisionCert net inst comm tipOf t nt d).sig := by
+  obtain ⟨hne, hhead⟩ := decision_head_own_base W cfg tbl input ops hops d hd
+  exact ⟨hne, hhead,
+    run_decision_certificate_accepted_nobase (fun x c => W x 0 .decide c) cfg tbl input ops d hd
+      (decision_ok_validated W cfg tbl input ops hops d hd) net inst comm tipOf t nt base hag ht hnt hne hcv hbaseIn⟩
+
+/-- … in the project's vocabulary `OpValidG` (every delivery validated) -/
+theorem instance_decision_certificate_accepted_validatedG (W : Votes) (cfg : Cfg) (tbl : F3.Instance.Table)
+    (input : Chain) (ops : List Op) (hops : ∀ op ∈ ops, OpValidG W tbl op) (d : Just)
+    (hd : (run (init cfg tbl input) ops).1.termination = some d)
+    (net inst comm : Nat) (tipOf : Nat → Tip) (t nt : F3.Certs.Table) (base : Option Tip)
+    (hag : TablesAgree tbl t) (ht : WF t) (hnt : WF nt)
+    (hcv : chainValid (d.value.map tipOf) = true)
+    (hbaseIn : ∀ b, base = some b → ∃ h, (input.map tipOf).head? = some h ∧ Tip.eq b h = true) :
+    d.value ≠ [] ∧ d.value.head? = input.head? ∧
+    validateCerts net t inst base [decisionCert net inst comm tipOf t nt d] =
+        ⟨u64 (inst + 1), (d.value.map tipOf).tail, canon nt, none⟩ ∧
+      Backed (fun x => W x 0 .decide d.value) t (decisionCert net inst comm tipOf t nt d).sig :=
+  instance_decision_certificate_accepted_validated W cfg tbl input ops (fun op hop => opValidG_toF (hops op hop)) d hd
+    net inst comm tipOf t nt base hag ht hnt hcv hbaseIn
+
+/-- the decision of a validated run is well formed w.r.t. the votes in existence, not bottom, and on the own base -/
+theorem decision_wellformed_validated (W : Votes) (cfg : Cfg) (tbl : F3.Instance.Table) (input : Chain)
+    (ops : List Op) (hops : ∀ op ∈ ops, OpValidF W tbl op) (d : Just)
+    (hd : (run (init cfg tbl input) ops).1.termination = some d) :
+    DecisionOK (fun x c => W x 0 .decide c) tbl d ∧ d.value ≠ [] ∧ d.value.head? = input.head? :=
+  ⟨decision_ok_validated W cfg tbl input ops hops d hd, decision_head_own_base W cfg tbl input ops hops d hd⟩
+
+/-! ### AUDIT2 E2: without validation the model decides bottom -/
+
+def botTbl : F3.Instance.Table := { entries := [(1, 10), (2, 10), (3, 10)] }
+def botOps : List Op :=
+  [.start 0,
+   .recv 1 { sender := 1, round := 0, phase := .decide, value := [] },
+   .recv 2 { sender := 2, round := 0, phase := .decide, value := [] }]
+
+/-- `OpsValid` (DECIDE in round 0, senders with power) admits a run that terminates on **bottom**: `hne` of
+`instance_decision_certificate_accepted` is not derivable from that theorem's other hypotheses. -/
+theorem opsvalid_decides_bottom :
+    OpsValid botTbl botOps ∧
+    (run (init exCfg botTbl [7, 8]) botOps).1.termination =
+      some { round := 0, phase := .decide, value := [], signers := [0, 1] } := by
+  refine ⟨?_, by decide⟩
+  intro op hop
+  simp only [botOps, List.mem_cons, List.mem_nil_iff, or_false] at hop
+  rcases hop with rfl | rfl | rfl <;> simp [MsgOk, botTbl, Table.power]
+
+/-- … and those deliveries are not valid: there is no `W` under which a DECIDE for bottom is `MsgValid` -/
+theorem decide_bottom_not_valid (W : Votes) (t : F3.Instance.Table) (m : Msg) (hp : m.phase = .decide)
+    (hv : m.value = []) : ¬ MsgValid W t m := by
+  intro h
+  obtain ⟨_, _, hrest⟩ := h
+  rw [hp] at hrest
+  exact hrest.2.1 hv
+
+/-! ### AUDIT2 E3: DECIDE votes on a foreign base are refused, nothing is tallied, nothing is decided -/
+example :
+    let ops : List Op :=
+      [.start 0,
+       .recv 1 { sender := 1, round := 0, phase := .decide, value := [9, 9],
+                 just := some { round := 0, phase := .commit, value := [9, 9], signers := [0, 1] } },
+       .recv 2 { sender := 2, round := 0, phase := .decide, value := [9, 9],
+                 just := some { round := 0, phase := .commit, value := [9, 9], signers := [0, 1] } }]
+    (run (init exCfg botTbl [7, 8]) ops).1.termination = none ∧
+    (run (init exCfg botTbl [7, 8]) ops).1.decision.support.length = 0 ∧
+    (run (init exCfg botTbl [7, 8]) ops).2.filter (fun e => match e with | .err _ => true | _ => false) =
+      [.err .wrongBase, .err .wrongBase] := by decide
+
+/-! ### non-vacuity on concrete runs -/
+
+/-- the votes in existence for `exOps` (two DECIDEs for `[7,8]`, justified by COMMITs of members 1 and 2) -/
+def exVotesD : List Vote :=
+  [(1, 0, .commit, [7, 8]), (2, 0, .commit, [7, 8]), (1, 0, .decide, [7, 8]), (2, 0, .decide, [7, 8])]
+
+theorem exOps_validG : ∀ op ∈ exOps, OpValidG (F3.Bridge.Wof exVotesD) CertEx.tblI op := by
+  intro op hop
+  rcases F3.Bridge.opValidB_sound exVotesD CertEx.tblI exOps (by decide) op hop with h | h
+  · have : exOps.all (fun o => !F3.Bridge.foreign o) = true := by decide
+    have := List.all_eq_true.1 this op hop
+    simp [h] at this
+  · exact h
+
+/-- `instance_decision_certificate_accepted_validatedG` (and `_nobase`) on the data of `CertEx`: hypotheses hold,
+conclusions as computed above. -/
+example :
+    CertEx.dec.value ≠ [] ∧ CertEx.dec.value.head? = ([7, 8] : Chain).head? ∧
+    validateCerts 1 CertEx.tC 5 (some (CertEx.tipOf 7))
+        [decisionCert 1 5 0 CertEx.tipOf CertEx.tC CertEx.ntC CertEx.dec] =
+      ⟨u64 (5 + 1), (CertEx.dec.value.map CertEx.tipOf).tail, canon CertEx.ntC, none⟩ ∧
+    Backed (fun x => F3.Bridge.Wof exVotesD x 0 .decide CertEx.dec.value) CertEx.tC
+      (decisionCert 1 5 0 CertEx.tipOf CertEx.tC CertEx.ntC CertEx.dec).sig :=
+  instance_decision_certificate_accepted_validatedG (F3.Bridge.Wof exVotesD) exCfg CertEx.tblI [7, 8] exOps
+    exOps_validG CertEx.dec (by decide) 1 5 0 CertEx.tipOf CertEx.tC CertEx.ntC (some (CertEx.tipOf 7))
+    (by rw [← tablesAgreeB_iff]; decide) (by rw [← wfB_iff]; decide) (by rw [← wfB_iff]; decide) (by decide)
+    (by intro b hb; cases hb; exact ⟨CertEx.tipOf 7, rfl, by decide⟩)
+
+/-- … and on the four-member run of `F3.Proofs.BridgeEx` (a Byzantine equivocator, one delivery with foreign
+supplemental data that is refused): `OpValidF` holds, member 1's decision `[7,8]` is well formed w.r.t. `exW`. -/
+example : ∃ d, (run (init F3.Bridge.exCfg F3.Bridge.exTbl [7, 8]) F3.Bridge.exOps).1.termination = some d ∧
+    DecisionOK (fun x c => F3.Bridge.exW x 0 .decide c) F3.Bridge.exTbl d ∧ d.value ≠ [] ∧
+    d.value.head? = ([7, 8] : Chain).head? := by
+  have hv : ∀ op ∈ F3.Bridge.exOps, OpValidF F3.Bridge.exW F3.Bridge.exTbl op := by
+    intro op hop
+    rcases F3.Bridge.opValidB_sound F3.Bridge.exVotes F3.Bridge.exTbl F3.Bridge.exOps (by decide) op hop with h | h
+    · cases op with
+      | recv now m => exact Or.inl h
+      | start _ => trivial
+      | alarm _ => trivial
+    · exact opValidG_toF h
+  have hd : (run (init F3.Bridge.exCfg F3.Bridge.exTbl [7, 8]) F3.Bridge.exOps).1.termination =
+      some { round := 0, phase := .decide, value := [7, 8], signers := [0, 1, 2] } := by decide
+  exact ⟨_, hd, decision_wellformed_validated _ _ _ _ _ hv _ hd⟩
+
+end Audit2
 
 end F3.Props.C03
